@@ -5,10 +5,10 @@
 
    Scope of the theorems: expressions (operators, ranges, calls with named arguments, aliases at every position the
    parser can produce one -- bare on tuple items, pipeline elements and positional arguments, in parentheses on operands,
-   range bounds, callees and named-argument values --, parameters in front of `..`, pipelines in parentheses, tuples,
-   arrays, case) at unlimited width, at token level; identifiers, strings, integers, floats at character level.
-   Line breaking, statement layout, types, lambdas and annotations are covered only by the differential oracle of
-   vplib/props/c14.py (for lambdas and annotations the forced context strengths are a table obligation here). *)
+   range bounds, callees, named-argument values and default values --, parameters in front of `..`, pipelines in
+   parentheses, tuples, arrays, case, lambdas `func p.. k:d.. -> body` without type annotations, at every position) and
+   annotation expressions, at unlimited width, at token level; identifiers, strings, integers, floats at character level.
+   Line breaking, statement layout and types are covered only by the differential oracle of vplib/props/c14.py. *)
 From Coq Require Import List NArith ZArith Bool Arith.
 From PV Require Import Lib.ListX Model.FmtLit Model.FmtPratt Model.Fmt Model.FmtInst
   Proofs.FmtPrattProofs Proofs.FmtProofs Proofs.FmtLitProofs Proofs.FmtInstProofs Gen.GenCodegen.
@@ -28,18 +28,14 @@ Theorem fmt_compat : compat F_prql P_prql nbin nun = true.
 Proof. vm_compute. reflexivity. Qed.
 Print Assumptions fmt_compat.
 
-(* ---- positions outside the expression model: the context strength forced on a lambda body / case branch keeps a call
-        bare and parenthesises a lambda; the one forced on default values and annotation expressions parenthesises
-        calls, lambdas and aliased expressions (commit 95d15ad) *)
-Theorem fmt_position_tables : position_tables_ok = true.
-Proof. vm_compute. reflexivity. Qed.
-Print Assumptions fmt_position_tables.
-
 (* ---- expressions (Theta-1, instance 3), at full strength:
         since commit a318687 binary_position no longer leaks below non-binary nodes (Example ex_former_leak);
         since commits 95d15ad / 2a611aa `wf` admits an alias on every operand, range bound, callee and named-argument
         value: the formatter parenthesises it there (`a + (x = b)`, `(x = f) a`, `f n:(x = a) b`);
-        since commit 1b7b9df a parameter that starts a range is kept apart from `..` (`($a)..b`, `-($a)..`).
+        since commit 1b7b9df a parameter that starts a range is kept apart from `..` (`($a)..b`, `-($a)..`);
+        since commit 95d15ad lambdas are part of the trees: the formatter parenthesises a lambda as case branch and as
+        lambda body (where the parser reads a func_call), and a call, a lambda or an aliased expression as default
+        value of a parameter (where it reads a plain expression).
    Generic in the tables: any formatter / parser tables that pass `compat` round-trip every well-formed tree. *)
 Theorem fmt_expr_roundtrip_generic : forall F T nb nu, compat F T nb nu = true ->
   forall e, wf e = true -> ops_ok nb nu e = true -> is_named e = false ->
@@ -52,6 +48,22 @@ Theorem fmt_expr_roundtrip :
   exists f0, forall f, (f0 <= f)%nat -> parse_prql f (fmt_toks e) = Some e.
 Proof. exact (roundtrip F_prql P_prql nbin nun (compat_sound _ _ _ _ fmt_compat)). Qed.
 Print Assumptions fmt_expr_roundtrip.
+
+(* ---- annotation expressions (`@expr`): Stmt::write raises the context strength to fmt_annotation_ctx, the parser reads
+        `expr()`: no call, lambda or aliased expression without parentheses (commit 95d15ad: `@(f x)` was written `@f x`) *)
+Theorem fmt_annotation_ctx_ok : annotation_ctx_ok = true.
+Proof. vm_compute. reflexivity. Qed.
+Print Assumptions fmt_annotation_ctx_ok.
+
+Theorem fmt_annotation_roundtrip :
+  forall e, wf e = true -> ops_ok nbin nun e = true -> is_named e = false ->
+  exists f0, forall f, (f0 <= f)%nat -> parse_expr_prql f (fmt_annotation_toks e) = Some e.
+Proof.
+  pose proof fmt_annotation_ctx_ok as H. unfold annotation_ctx_ok in H. apply andb_true_iff in H as [H1 H2].
+  apply N.leb_le in H1. apply N.ltb_lt in H2.
+  exact (fun e => roundtrip_expr_at F_prql P_prql nbin nun (compat_sound _ _ _ _ fmt_compat) _ e H1 H2).
+Qed.
+Print Assumptions fmt_annotation_roundtrip.
 
 (* ---- idempotence: fmt (parse (fmt t)) = fmt t *)
 Theorem fmt_idempotent :
@@ -147,6 +159,17 @@ Example ex_alias_positions :
   forallb (fun e => wf e && ops_ok nbin nun e && negb (is_named e)) alias_witnesses = true /\
   map (fun e => parse_prql 40 (fmt_toks e)) alias_witnesses = map Some alias_witnesses.
 Proof. vm_compute. split; reflexivity. Qed.
+Example ex_lambda_positions :
+  forallb (fun e => wf e && ops_ok nbin nun e && negb (is_named e)) lambda_witnesses = true /\
+  map (fun e => parse_prql 60 (fmt_toks e)) lambda_witnesses = map Some lambda_witnesses.
+Proof. vm_compute. split; reflexivity. Qed.
+(* case [a => (func y -> y)]   func x -> (func y -> x + y)   func k:(g y) -> k   @(f x) *)
+Example ex_lambda_text :
+  fmt_text (EGroup GCase [idn 97; lam [121] (idn 121)]) = [99;97;115;101;32;91;97;32;61;62;32;40;102;117;110;99;32;121;32;45;62;32;121;41;93]
+  /\ fmt_text (lam [120] (lam [121] (EBin 5 (idn 120) (idn 121)))) = [102;117;110;99;32;120;32;45;62;32;40;102;117;110;99;32;121;32;45;62;32;120;32;43;32;121;41]
+  /\ fmt_text (EFunc [] [ENamed [107] (ECall (idn 103) [idn 121])] (idn 107)) = [102;117;110;99;32;107;58;40;103;32;121;41;32;45;62;32;107]
+  /\ render R_prql (fmt_annotation_toks (ECall (idn 102) [idn 120])) = [40;102;32;120;41].
+Proof. vm_compute. repeat split; reflexivity. Qed.
 Example ex_alias_text : fmt_text (EBin 5 (idn 97) (EAlias [120] (idn 98))) = [97; 32; 43; 32; 40; 120; 32; 61; 32; 98; 41]   (* a + (x = b) *)
   /\ fmt_text (ERng (par_atom 97) (idn 98)) = [40; 36; 97; 41; 46; 46; 98]                                                (* ($a)..b *)
   /\ fmt_text (ERngL (EUn 0 (par_atom 97))) = [45; 40; 36; 97; 41; 46; 46].                                               (* -($a).. *)
